@@ -23,6 +23,7 @@ func init() {
 			"PV-API pattern literals are consumed as prefixes; KeyToLabel class table (C20)",
 			"PV-API IsValidLabel (which packed fields unpack accepts)",
 			"PV-ALIAS label values are not rewritten in place; record bodies own their bytes",
+			"PV-API duration label values are converted with time.ParseDuration (a value in another syntax is a conversion failure: kept with __error__); PV-PURE parser stages only write the label set (an extracted field overwrites an existing label)",
 		},
 		NotDecided: []string{"library semantics of strings.Contains / regexp / netip", "that the storage evaluates offloaded filters correctly (the engine re-checks them, so only completeness of the storage matters: C02)"},
 		Technique:  "SSA summary/typestate analysis of the Processor implementers (line/keep contract), enum-table chain extraction over feasible paths from parser tokens to built matchers, finite-case truth tables, dominance and path rules on the offload scan and the per-record pipeline",
@@ -63,6 +64,8 @@ func init() {
 			ruleNoInPlaceValueMutation(r, []string{enginePkg, metricPkg}, 2) // a selector label that a stage rewrites in place changes for the later records
 			ruleNoUnsafeStrings(r, []string{enginePkg, dockerlogPkg})
 			ruleDaemonLog(r)
+			ruleLabelDurationGoSyntax(r)
+			ruleExtractorsWriteOnly(r)
 		},
 	})
 }
